@@ -242,7 +242,9 @@ def task_histories(ctx, n, steps=30):
 def tasks(tier):
     if tier == "quick":
         return [("hist-%d" % k, task_histories, dict(n=250)) for k in range(8)]
-    return [("hist-%d" % k, task_histories, dict(n=4000)) for k in range(16)]
+    # coverage-guided tier (pbt/fuzz.py): libFuzzer drives the strategies and oracles of these tasks
+    from .. import fuzz
+    return fuzz.extend([("hist-%d" % k, task_histories, dict(n=4000)) for k in range(16)], PROPERTY, ['hist-0'])
 
 
 def replay(ctx, case):
